@@ -1,21 +1,25 @@
 (* C10 — enumeration returns exactly all minimum covers by primes.
-   Statements only; proofs in theories/L5Cover/BoxesProofs.v and
-   MinCoverProofs.v.
+   Statements only; proofs in theories/L5Cover/BoxesProofs.v,
+   MinCoverProofs.v, CoverEnumProofs.v, CoverEnumBounded4.v.
 
-   cover_enum.py is NOT modelled.  What is proved, for every finite instance:
-   the reference [all_min_covers_ref] is exactly the set of minimum covers by
-   maximal boxes, and the checker [is_all_min_covers_b] decides "R is exactly
-   that set".  The check evaluates the checker inside Coq on the set of
-   covers returned by the real cover_enum.minimize, so that every verdict
-   "agrees" is an instance of theorem C10_checker_correct.  The unbounded
-   statement about the implementation is [C10_spec] applied to the
-   implementation; it is known to be FALSE for the unchanged code (finding
-   F2: AssertionError inside _enumerate_mincovers_below on about 7% of the
-   4-variable truth tables; regression cases in corpus/C10). *)
-From Coq Require Import List ZArith Bool.
+   (1) Specification and verified reference/checker, every finite instance:
+       [all_min_covers_ref] is exactly the set of minimum covers by maximal
+       boxes, and [is_all_min_covers_b] decides "R is exactly that set".
+       The check evaluates the checker inside Coq on the set of covers
+       returned by the real cover_enum.minimize.
+   (2) Model of cover_enum.minimize (L5Cover/CoverEnum.v) AS REPAIRED by
+       fixes/F2.patch: soundness for all instances and picks; exactness on
+       the finite domains of the property's quantifier by computation;
+       exactness for all instances is stated ([C10_full]) and NOT proved.
+   (3) Finding F2 (unrepaired code): Context.pick_iter / Context.count are
+       called without care_vars, so a set of boxes that is a cylinder along a
+       parameter is enumerated/counted as fewer elements and the assertions
+       of _enumerate_mincovers_below fail; regression examples below. *)
+From Coq Require Import List ZArith NArith Bool.
 Import ListNotations.
 From Omega Require Import L5Cover.Boxes L5Cover.BoxesProofs L5Cover.MinCover
-  L5Cover.MinCoverProofs.
+  L5Cover.MinCoverProofs L5Cover.CoverEnum L5Cover.CoverEnumProofs
+  L5Cover.MinCoverBounded L5Cover.MinCoverBounded4 L5Cover.CoverEnumBounded4.
 Open Scope Z_scope.
 
 (* what C10 demands of an enumeration procedure: it returns (no error) a set
@@ -64,8 +68,53 @@ Theorem C10_unique : forall rs f care R R',
   (forall K', In K' R' -> exists K, In K R /\ same_set K' K).
 Proof. exact all_min_unique. Qed.
 
-(* the function of finding F2 (minterms 0000 0001 0010 1000 1011 1100 1101
-   1111) has exactly three minimum covers, of size five *)
+(* ---- (2) the model of cover_enum.minimize (repaired) *)
+(* soundness, all instances, all picks (no hypothesis on pick is needed:
+   the code re-checks its result with assertions, which the model contains):
+   a returned set is non-empty, every member is a cover of f by maximal
+   boxes, all members have the same number of boxes *)
+Theorem C10_enum_sound : forall rs pick f care R,
+  enum_minimize rs pick f care = inl R ->
+  R <> [] /\
+  (forall K, In K R -> prime_cover rs f care K) /\
+  (forall K K', In K R -> In K' R -> length K = length K').
+Proof. exact enum_sound. Qed.
+
+Example C10_enum_returns :
+  exists R, enum_minimize rs3 pick_first (fun_of_mask 126) (fun _ => true) = inl R
+            /\ length R = 2%nat.
+Proof. eexists. split; vm_compute; reflexivity. Qed.
+
+(* exactness and termination without error on the finite domains *)
+Theorem C10_bounded_3 :
+  forall fm cm, (1 <= fm < 256)%N -> (cm < 256)%N ->
+  exists R, enum_minimize rs3 pick_first (fun_of_mask fm) (fun_of_mask cm) = inl R /\
+            all_min_prime_covers rs3 (fun_of_mask fm) (fun_of_mask cm) R.
+Proof. exact enum_exact_bounded_3_first. Qed.
+
+Theorem C10_bounded_3_pick_last :
+  forall fm cm, (1 <= fm < 256)%N -> (cm < 256)%N ->
+  exists R, enum_minimize rs3 pick_last (fun_of_mask fm) (fun_of_mask cm) = inl R /\
+            all_min_prime_covers rs3 (fun_of_mask fm) (fun_of_mask cm) R.
+Proof. exact enum_exact_bounded_3_last. Qed.
+
+Theorem C10_bounded_4 :
+  forall fm, (1 <= fm < 65536)%N ->
+  exists R, enum_minimize rs4 pick_first (fun_of_mask fm) care_true = inl R /\
+            all_min_prime_covers rs4 (fun_of_mask fm) care_true R.
+Proof. exact enum_exact_bounded_4_first. Qed.
+
+(* the unbounded statement about the model: NOT proved *)
+Definition C10_full : Prop :=
+  forall pick, (forall s b, pick s = Some b -> In b s) ->
+  C10_spec (fun rs f care =>
+    match enum_minimize rs pick f care with inl R => Some R | inr _ => None end).
+
+(* ---- (3) finding F2: the witness of DESIGN section 7 (minterms 0000 0001
+   0010 1000 1011 1100 1101 1111) has exactly three minimum covers, of size
+   five; the repaired code returns them; in the unrepaired code the set
+   computed by _below_and_suff at the failing step is a cylinder along one
+   parameter (two boxes, enumerated by pick_iter as one) *)
 Example C10_F2_witness_answer :
   let f := mem_pt [[0;0;0;0];[0;0;0;1];[0;0;1;0];[1;0;0;0];[1;0;1;1];
                    [1;1;0;0];[1;1;0;1];[1;1;1;1]] in
@@ -73,9 +122,26 @@ Example C10_F2_witness_answer :
   length R = 3%nat /\ forallb (fun K => Nat.eqb (length K) 5) R = true.
 Proof. vm_compute. split; reflexivity. Qed.
 
+Example C10_F2_repaired_answer :
+  exists R, enum_minimize rs4 pick_first f2_f care_true = inl R /\
+            length R = 3%nat /\ is_all_min_covers_b rs4 f2_f care_true R = true.
+Proof. exact F2_repaired_answer. Qed.
+
+Example C10_refuted_unrepaired_mechanism :
+  exists S,
+    below_and_suff [(1,1);(0,1);(0,0);(0,0)]
+      (union [[(0,0);(0,0);(0,0);(0,1)]] (tl f2_lm)) f2_x f2_y = inl S /\
+    length S = 2%nat /\
+    independent_of (0, 1) S 1 true = true.
+Proof. exact F2_mechanism. Qed.
+
 Print Assumptions C10_reference_correct.
 Print Assumptions C10_checker_correct.
 Print Assumptions C10_same_size.
 Print Assumptions C10_nonempty.
 Print Assumptions C10_contains_every_minimum_cover.
 Print Assumptions C10_unique.
+Print Assumptions C10_enum_sound.
+Print Assumptions C10_bounded_3.
+Print Assumptions C10_bounded_3_pick_last.
+Print Assumptions C10_bounded_4.
